@@ -1,16 +1,22 @@
 """C06 — output is independent of thread scheduling and the run always ends."""
-from vlib import core, coord_common
+from vlib import core, coord_common, worker_traces
 from vlib.props import C08 as _c08
 
-MODS = ['S4V.Props.C06', 'S4V.Props.CoordSpec']
+MODS = ['S4V.Props.C06', 'S4V.Props.CoordSpec', 'S4V.Props.WorkerProtoSpec']
 LEVEL_NOTE = ("Proved on the coordinator model of processing_loop (per-source FIFO channels of the capacity found in the source, wait condition, "
               "blocking select over un-filled channels, first-minimum print, channel removal): for EVERY schedule a finished run has printed merge(scripts) "
               "(confluence), the loop never leaves through the early-break path when every worker sends FileInfo first, some step is always enabled "
-              "(no deadlock, capacity >= 1), iterations are bounded. Tied to the code by replaying cfg(s4_verif) event traces of the real binary, taken under "
+              "(no deadlock, capacity >= 1), iterations are bounded. That every worker sends FileInfo first is itself proved, over the control-flow skeleton of the four exec_*processor "
+              "functions and their dispatcher regenerated from s4.rs on every run (Gen.Worker: every chan_send with its datum kind, every return/break/continue, in their branch and loop nesting; "
+              "the spawn site's filter and sender ownership): every send-trace the thread skeleton can produce is FileInfo, then messages, then at most one FileSummary and nothing after it "
+              "(WorkerProtoSpec: W_thread_tidy, by a protocol-automaton analysis proved sound once), so the C06 theorems hold without the WF hypothesis (C06_no_deadlock_skeletons, "
+              "C06_never_stops_early_skeletons); skeletons that send a message first / return early without FileInfo / send after the summary are rejected (counter-models, incl. seeded change C07-a). "
+              "Tied to the code by replaying cfg(s4_verif) event traces of the real binary, taken under "
               "seeded send/poll delay plans, through the model's transition function (every observed event must be enabled, final output = merge).")
 ASSUME = ["crossbeam_channel: FIFO per channel; select returns some ready channel; a closed channel still delivers buffered data",
           "OS scheduling fairness (every runnable thread eventually runs) is not modelled",
-          "every exec_*processor sends FileInfo first (hypothesis WF of no_break; observed on every trace, counter-model wf_needed shows it is needed)"]
+          "the worker skeleton is an over-approximation (loops any number of times, data-dependent branches both ways); the observed receive sequence of every worker of the real binary "
+          "(all source kinds, error paths) must be a trace the skeleton can produce (component wproto); a panic in a worker aborts the process in the shipped profile"]
 
 
 def check(ctx):
@@ -30,9 +36,9 @@ def check(ctx):
         return core.merge_oracles([res, res2, res3])
 
     def extra(c):
-        return [coord_common.trace_correspondence(c, state.get('cases', []))] + list(state.get('corr3', []))
+        return [coord_common.trace_correspondence(c, state.get('cases', [])), worker_traces.correspondence(c, c.q(40, 400))] + list(state.get('corr3', []))
 
-    return core.standard_check(ctx, ['Consts', 'Coord'], MODS, [], oracle, LEVEL_NOTE, ASSUME, extra_corr_fn=extra)
+    return core.standard_check(ctx, ['Consts', 'Coord', 'Worker'], MODS, [], oracle, LEVEL_NOTE, ASSUME, extra_corr_fn=extra)
 
 
 def replay(ctx, data):
